@@ -382,6 +382,14 @@ impl ViCut {
 		if self.mode.report_mode() == ModeReport::Insert && self.current_buffer().should_handle_block_insert() {
 			self.current_buffer().handle_block_insert();
 		}
+		if let (Some(VerbCmd(_,Verb::Change)), Some(motion)) = (cmd.verb(), cmd.motion.as_ref()) {
+			// 'c' with a motion that fails (no such character, no such text object) is cancelled as a whole:
+			// insert mode is not entered
+			let motion_kind = self.current_buffer().eval_motion(Some(&Verb::Change), motion.clone());
+			if matches!(motion_kind, MotionKind::Null) {
+				return Ok(())
+			}
+		}
 		let mut inserting_from_visual = false;
 		let mut mode: Box<dyn ViMode> = match cmd.verb().unwrap().1 {
 			Verb::Change |
